@@ -51,9 +51,9 @@ func run(c *hlib.Ctx) {
 			[]string{"La", "Ld", "Lb", "Wv", "W", "C"}, c.N(3, 3), 40, 1)
 		dw := map[string]int{"load": 40, "delwhere": 40, "delete": 6, "compact": 8, "vacuum": 2}
 		lakeh.RunPlan(c, lakeh.Plan{
-			Opt:         lakeh.Options{Prop: "C14", StopOnFail: true},
-			Profiles:    []lakeh.Profile{{Name: "c14-delwhere-par1", W: dw, MaxOps: 9, Guarded: true, MinThresh: 40}},
-			Quick:       40, Thorough: 600,
+			Opt:      lakeh.Options{Prop: "C14", StopOnFail: true},
+			Profiles: []lakeh.Profile{{Name: "c14-delwhere-par1", W: dw, MaxOps: 9, Guarded: true, MinThresh: 40}},
+			Quick:    40, Thorough: 600,
 			Parallelism: 1,
 		})
 	}
